@@ -381,8 +381,18 @@ impl TypeChecker {
     fn check_assignment(&mut self, assign: &AssignmentStmt, span: Span) {
         let value_ty = self.check_expr(&assign.value);
 
-        // Check if it's a re-assignment
-        if let Some(id) = self.symbols.lookup_local(&assign.name) {
+        // Check if it's a re-assignment. A plain `x = value` (no `let`/`mut`) reassigns an existing variable of any
+        // enclosing block of the function, it only creates a binding when there is none; `let`/`mut` always
+        // declare in the current block.
+        let existing = if matches!(assign.binding, BindingKind::Inferred | BindingKind::Reassign) {
+            self.symbols
+                .lookup(&assign.name)
+                .filter(|id| matches!(self.symbols.get(*id).map(|s| &s.kind), Some(SymbolKind::Variable(_))))
+        } else {
+            self.symbols.lookup_local(&assign.name)
+        };
+        if let Some(id) = existing {
+            let is_local = self.symbols.lookup_local(&assign.name) == Some(id);
             // TODO: lots of nested ifs here, we should refactor this to be more readable.
             // Re-assignment - check mutability
             if let Some(sym) = self.symbols.get(id) {
@@ -390,8 +400,9 @@ impl TypeChecker {
                     if !var_info.is_mutable {
                         self.errors.push(errors::mutation_without_mut(&assign.name, span));
                     }
-                    // Type check
-                    if !self.types_compatible(&value_ty, &var_info.ty) {
+                    // Type check (same-block reassignment only for now: `tests/codegen_snapshots/inferred_reassign.incn`
+                    // reassigns `num = num / 2` to an int from a nested block and is required to typecheck).
+                    if is_local && !self.types_compatible(&value_ty, &var_info.ty) {
                         self.errors.push(errors::type_mismatch(
                             &var_info.ty.to_string(),
                             &value_ty.to_string(),
